@@ -209,7 +209,7 @@ func (x *X) do(op tr.Line) (tr.Line, []tr.Line) {
 		direct = append(direct, x.finish()...)
 	}
 	x.settleAll()
-	return out, append(direct, x.window()...)
+	return out, append(direct, x.window(op.Name == "finish")...)
 }
 
 func (x *X) dialTarget() (string, string) {
@@ -253,6 +253,10 @@ func (x *X) doConnect(op tr.Line) tr.Line {
 		max = 150 * time.Millisecond
 	}
 	x.waitFor(max, func() bool { return cr.entered > 0 })
+	if h.wfail || h.act == gnet.Close {
+		// the callback closes the connection: its OnClose belongs to this window
+		x.waitFor(300*time.Millisecond, func() bool { return cr.closed > 0 || cr.entered == 0 || x.pinL[cr.li] })
+	}
 	x.mu.Lock()
 	li := cr.li
 	x.mu.Unlock()
@@ -302,6 +306,9 @@ func (x *X) doTraffic(op tr.Line) {
 		return
 	}
 	x.waitFor(400*time.Millisecond, func() bool { return cr.entered > n || cr.closed > 0 })
+	if h.wfail || h.act == gnet.Close {
+		x.waitFor(300*time.Millisecond, func() bool { return cr.closed > 0 || cr.entered == n || x.pinL[cr.li] })
+	}
 }
 
 func (x *X) doPeerClose(op tr.Line) {
